@@ -66,6 +66,30 @@ CHECKS = {
          "Trusted: the harness's own 20-line canonical order; hash collisions are not searched for.", "5/C14"),
 }
 PENDING_REASON = "not claimed in this revision"
+# workload families added in seeding waves 15-17 (DESIGN.md section 8.3), appended to the level texts
+ADDENDA = {
+ "C01": " Also a running two-thread daemon: exact and proper-prefix Interests (0-2 components, CanBePrefix) answered by a local producer or a non-local upstream with token-echoing or tokenless Data.",
+ "C02": " Also: an Interest at an entry nothing was ever forwarded for must be forwarded; the duplicate-nonce rule across two forwarding threads with forwarding hints inside a producer region.",
+ "C03": " Also: names of 31-129 components, P-224/P-521 signers, decoding must leave the caller's segmented wire unchanged.",
+ "C04": " Also: a canary packet decoded after every eighth decoder call must always decode identically (no state carried between decodes).",
+ "C05": " Also: a component spelling out the hash input of two components, digest-typed components, face ids equal modulo powers of two.",
+ "C06": " Also: 17-40 faces on one prefix and the one below it.",
+ "C07": " Also: the table's periodic maintenance call inside histories; returned slices are held and must never change.",
+ "C08": " Also: a reclaim oracle right after every maintenance pass, a sustained backlog on a free-running thread, a configured dead-nonce lifetime of 0 ms.",
+ "C09": " Also: the UDP listener over IPv4 and IPv6, local and non-local faces with ids equal modulo powers of two.",
+ "C10": " Also: frames of a new peer through the real UDP listener (first frame up to the 8800-byte MTU), one packet object through the send queues of a backed-up and an idle face.",
+ "C11": " Also: the forwarder's TCP / Unix stream listeners with plain clients, five-byte type numbers, bytes still unread when a stream face is closed and opened again.",
+ "C12": " Also: 2400 RSA-1024 and several hundred ECDSA signatures per run (agreement oracle), a stale parameters digest as last name component.",
+ "C13": " Also: unknown elements inserted inside nested structures and sequences of structures.",
+ "C14": " Also: (almost-)UTF-8 component values, names of 31-70 components.",
+ "C15": " Also: removal after the packets were served once, the same object fetched twice at once, object names with inner number components.",
+ "C16": " Also: one route command recomputing 550-700 FIB entries while readers look the children up (each result must be one of the two legal sets).",
+ "C17": " Also: faces/destroy of a face holding routes, a direct FIB next hop between two RIB routes.",
+ "C18": " Also: the post-fault fixed point compared with a fresh convergence, nested router names, chains of five with a coalesced loss+gain.",
+ "C19": " Also: publishers with 130-300 prefixes, nested announced names, monotonicity of the applied sequence number, a fetch-loop oracle.",
+ "C20": " Also: explicit InterestLifetime 0, transport errors with Interests pending, route withdrawal with handlers attached.",
+}
+
 def main():
     here = os.path.dirname(os.path.dirname(os.path.abspath(__file__)))
     hooks_commits = []
@@ -78,6 +102,7 @@ def main():
     for pid in ALL:
         if pid not in CHECKS: continue
         tech, text, note, ref = CHECKS[pid]
+        text = text + ADDENDA.get(pid, "")
         checks.append({
             "property_id": pid,
             "quick_cmd": "./check %s quick" % pid,
